@@ -21,6 +21,9 @@ Why(o) ==
   ELSE IF o.t = "files" THEN
        (IF o.out # Used(FilesOf(o), o.names, o.use.mode, o.use.sel) THEN "records or NR/FNR/FILENAME/FILENUM/NF wrong"
         ELSE IF o.endnr # ToString(FinalNR(o.files)) THEN "end block does not see the final NR" ELSE "ok")
+  ELSE IF o.t = "blocks" THEN          \* files of several header blocks (CSV-lite, PPRINT)
+       (IF o.out # AnnotatedB(o.files, o.names) THEN "records or NR/FNR/FILENAME/FILENUM/NF wrong"
+        ELSE IF o.endnr # ToString(BFinalNR(o.files)) THEN "end block does not see the final NR" ELSE "ok")
   ELSE IF o.t = "dslchain" THEN        \* put/filter verbs with programs of their own: the law itself, then = pipe
        (IF o.piped # o.out THEN "then-chain differs from the piped verbs" ELSE "ok")
   ELSE IF ~ChainOK(o.cs) THEN "ok"      \* outside the composable space (sampled by the harness): not judged
